@@ -27,8 +27,9 @@ Fixpoint insert_by_id (x : parked_t) (l : list parked_t) : list parked_t :=
   | y :: r => if snd (fst x) <=? snd (fst y) then x :: l else y :: insert_by_id x r
   end.
 
-Definition parked_convoys (s : state) : list parked_t :=
+Definition parked_convoys (py : bool) (s : state) : list parked_t :=
   flat_map (fun iq => match q_pc (snd iq) with
+                      | CPopOver => if py then [(0, fst iq, 7)] else []
                       | CChecked => [(0, fst iq, 3)]
                       | CClaimed => [(0, fst iq, 4)]
                       | CDeleted => [(0, fst iq, 5)]
@@ -42,7 +43,7 @@ Definition parked_tasks (s : state) : list parked_t :=
   fold_right insert_by_id []
     (flat_map (fun iq => match q_pc (snd iq) with CRun t => [(2, t, 6)] | _ => [] end) (indexed 0 (st_qs s))).
 
-Definition parked (s : state) : list parked_t := parked_convoys s ++ parked_prods s ++ parked_tasks s.
+Definition parked (py : bool) (s : state) : list parked_t := parked_convoys py s ++ parked_prods s ++ parked_tasks s.
 
 Definition first_unstarted (s : state) : option nat :=
   match find (fun ip => match snd (snd ip) with PStart => true | _ => false end) (indexed 0 (st_prods s)) with
@@ -50,8 +51,8 @@ Definition first_unstarted (s : state) : option nat :=
 
 (* enabled commands in canonical order: convoys, producers (parked ones and the first unstarted one,
    by id), tasks *)
-Definition enabled (s : state) : list thread :=
-  map (fun p => (fst (fst p), snd (fst p))) (parked_convoys s)
+Definition enabled (py : bool) (s : state) : list thread :=
+  map (fun p => (fst (fst p), snd (fst p))) (parked_convoys py s)
   ++ map (fun p => (fst (fst p), snd (fst p)))
        (fold_right insert_by_id []
           (parked_prods s ++ match first_unstarted s with Some i => [(1, i, 0)] | None => [] end))
@@ -62,8 +63,8 @@ Inductive cmd := CmdName (kind id : nat) | CmdAny (n : nat) | CmdPref (kind n : 
 
 Definition thread_eqb (a b : thread) : bool := (fst a =? fst b) && (snd a =? snd b).
 
-Definition resolve (s : state) (c : cmd) : option thread :=
-  let en := enabled s in
+Definition resolve (py : bool) (s : state) (c : cmd) : option thread :=
+  let en := enabled py s in
   match c with
   | CmdName k i => if existsb (thread_eqb (k, i)) en then Some (k, i) else None
   | CmdAny n => match en with [] => None | _ => nth_error en (n mod length en) end
@@ -88,7 +89,14 @@ Fixpoint macro_prod (fuel : nat) (cap : nat) (s : state) (i : nat) (get : option
       end
   end.
 
-Fixpoint settle_conv (fuel : nat) (s : state) (q : nat) : state :=
+(* obs: the parked list the implementation reported after this command.  Go's select picks at random among
+   ready cases; a pending wake token (left by an overflow enqueue) makes the convoy loop once more instead of
+   taking the timer case.  The model allows a wake at any time (KWake); the replay follows the
+   implementation's choice: it takes KWake when the implementation shows the convoy at convoy.pop_between. *)
+Definition obs_at7 (obs : list parked_t) (q : nat) : bool :=
+  existsb (fun p => (fst (fst p) =? 0) && (snd (fst p) =? q) && (snd p =? 7)) obs.
+
+Fixpoint settle_conv (py : bool) (obs : list parked_t) (fuel : nat) (s : state) (q : nat) : state :=
   match fuel with
   | 0 => s
   | S f =>
@@ -96,19 +104,22 @@ Fixpoint settle_conv (fuel : nat) (s : state) (q : nat) : state :=
       | None => s
       | Some Q =>
           match q_pc Q with
-          | CTop | CPopOver | CDelFailed => settle_conv f (step_conv s q KStep) q
+          | CPopOver => if py then s else settle_conv py obs f (step_conv s q KStep) q
+          | CTop | CDelFailed => settle_conv py obs f (step_conv s q KStep) q
           | CWait =>
               match chan s (q_ch Q) with
-              | _ :: _ => settle_conv f (step_conv s q KRecv) q
-              | [] => step_conv s q KTimer    (* eager idle check; stutters when it would fail *)
+              | _ :: _ => settle_conv py obs f (step_conv s q KRecv) q
+              | [] => if py && obs_at7 obs q
+                      then settle_conv py obs f (step_conv s q KWake) q
+                      else step_conv s q KTimer    (* eager idle check; stutters when it would fail *)
               end
           | _ => s
           end
       end
   end.
 
-Definition settle (s : state) : state :=
-  fold_left (fun s q => settle_conv 8 s q) (seq 0 (length (st_qs s))) s.
+Definition settle (py : bool) (obs : list parked_t) (s : state) : state :=
+  fold_left (fun s q => settle_conv py obs 8 s q) (seq 0 (length (st_qs s))) s.
 
 Definition queue_running (s : state) (t : nat) : option nat :=
   match find (fun iq => match q_pc (snd iq) with CRun t' => t' =? t | _ => false end) (indexed 0 (st_qs s)) with
@@ -121,8 +132,8 @@ Definition chan_of_queue (s : state) (oq : option nat) : option nat :=
   end.
 
 (* one command on the model: the thread it resolved to, and the state after settling *)
-Definition exec_cmd (cap : nat) (s : state) (c : cmd) (getq : option nat) : option thread * state :=
-  match resolve s c with
+Definition exec_cmd (py : bool) (obs : list parked_t) (cap : nat) (s : state) (c : cmd) (getq : option nat) : option thread * state :=
+  match resolve py s c with
   | None => (None, s)
   | Some (k, i) =>
       let s1 :=
@@ -131,7 +142,7 @@ Definition exec_cmd (cap : nat) (s : state) (c : cmd) (getq : option nat) : opti
         | 1 => macro_prod 24 cap s i (chan_of_queue s getq)
         | _ => match queue_running s i with Some q => step_conv s q KStep | None => s end
         end in
-      (Some (k, i), settle s1)
+      (Some (k, i), settle py obs s1)
   end.
 
 Record obs_cmd := mkOC {
@@ -145,7 +156,7 @@ Record obs_cmd := mkOC {
 Definition pk (a b c : nat) : parked_t := (a, b, c).
 Definition th (a b : nat) : option thread := Some (a, b).
 
-Record obs_case := mkCase { c_cap : nat; c_keys : list nat; c_cmds : list obs_cmd }.
+Record obs_case := mkCase { c_py : bool; c_cap : nat; c_keys : list nat; c_cmds : list obs_cmd }.
 
 Definition event_eqb (a b : event) : bool :=
   match a, b with
@@ -168,15 +179,15 @@ Definition othread_eqb (a b : option thread) : bool :=
 (* error codes: 1 impl<>model at command n;  2 impl<>spec (safety clause; second component = spec code
    1 cross-flow, 2 order/duplicate/not accepted, 3 two at a time);  5 impl<>spec (a task accepted and never
    run although the system is at rest);  3 model<>spec;  4 impl and model disagree on being at rest *)
-Fixpoint replay (cap : nat) (s : state) (cmds : list obs_cmd) (n : nat) : list (nat * nat) * state :=
+Fixpoint replay (py : bool) (cap : nat) (s : state) (cmds : list obs_cmd) (n : nat) : list (nat * nat) * state :=
   match cmds with
   | [] => ([], s)
   | c :: r =>
-      let '(th, s') := exec_cmd cap s (o_cmd c) (o_get c) in
+      let '(th, s') := exec_cmd py (o_parked c) cap s (o_cmd c) (o_get c) in
       let evs := skipn (length (st_log s)) (st_log s') in
-      let ok := othread_eqb th (o_thread c) && list_eqb parked_eqb (parked s') (o_parked c)
+      let ok := othread_eqb th (o_thread c) && list_eqb parked_eqb (parked py s') (o_parked c)
                 && list_eqb event_eqb evs (o_events c) in
-      let '(errs, sf) := replay cap s' r (S n) in
+      let '(errs, sf) := replay py cap s' r (S n) in
       ((if ok then [] else [(n, 1)]) ++ errs, sf)
   end.
 
@@ -186,7 +197,7 @@ Definition first_err (l : list (nat * nat)) : list (nat * nat) :=
   match l with [] => [] | x :: _ => [x] end.
 
 Definition check_case (c : obs_case) : list (nat * nat) :=
-  let '(errs, sf) := replay (c_cap c) (init (c_keys c)) (c_cmds c) 0 in
+  let '(errs, sf) := replay (c_py c) (c_cap c) (init (c_keys c)) (c_cmds c) 0 in
   let il := impl_log c in
   let ml := st_log sf in
   let impl_rest := match rev (c_cmds c) with
@@ -196,13 +207,13 @@ Definition check_case (c : obs_case) : list (nat * nat) :=
   ++ map (fun e => (e, 2)) (spec_errors il)
   ++ (if impl_rest && negb (spec_complete il) then [(length (spec_lost il), 5)] else [])
   ++ (if spec_safe ml && (negb (quiescent sf) || spec_complete ml) then [] else [(0, 3)])
-  ++ (if Bool.eqb impl_rest (match enabled sf with [] => true | _ => false end) then [] else [(0, 4)]).
+  ++ (if Bool.eqb impl_rest (match enabled (c_py c) sf with [] => true | _ => false end) then [] else [(0, 4)]).
 
 (* coverage signature of a case (from the model run): queues created, claims (queues that reached the
    sentinel), overflow enqueues seen (tasks started from overflow are not distinguishable in the log, so:
    queues that were ever in overflow mode at a command boundary), tasks lost at rest, cross-flow starts *)
 Definition case_signature (c : obs_case) : nat * nat * nat * nat * nat :=
-  let '(_, sf) := replay (c_cap c) (init (c_keys c)) (c_cmds c) 0 in
+  let '(_, sf) := replay (c_py c) (c_cap c) (init (c_keys c)) (c_cmds c) 0 in
   let ml := st_log sf in
   (length (st_qs sf),
    length (filter (fun Q => (q_refs Q <? 0)%Z) (st_qs sf)),
@@ -321,3 +332,80 @@ Definition ecase_signature (c : ecase) : nat * nat * nat :=
   let sf := fold_left (fun s o => fst (estep s (eo_op o))) (ec_steps c) es0 in
   (length (es_eps sf), length (filter er_retired (es_eps sf)),
    length (filter (fun o => eo_err o =? 1) (ec_steps c))).
+
+(* ------------------------------------------------------------------------------------------ *)
+(* endpoint pool: the code-shaped model (C13_EpModel) against the implementation and the spec   *)
+(* ------------------------------------------------------------------------------------------ *)
+From Dae Require Import C13_EpModel.
+
+Definition pop_of (o : eop) : pop :=
+  match o with
+  | EGoc k d g out => PGoc k d g out
+  | EBurst k d g _ => PGoc k d g 0
+  | EWrite e out => PWrite e out
+  | ETrack e t => PTrack e t
+  | EInval d => PInval d
+  | EReset => PReset
+  end.
+
+Definition m_ret (s : pstate) (r : eres) : option nat :=
+  match r_ret r with Some e => handle_of s e | None => None end.
+Definition m_pool (s : pstate) (k : nat) : option (option nat) :=
+  match p_pool s k with
+  | None => None
+  | Some e => match nth_error (p_eps s) e with
+              | Some u => if u_failed u then Some None else Some (handle_of s e)
+              | None => Some (Some 9999) end
+  end.
+Definition m_refs (s : pstate) (g t : nat) : nat := match p_tr s g t with Some e => t_refs e | None => 0 end.
+Definition m_eps (s : pstate) : list (nat * nat) :=
+  map (fun e => match nth_error (p_eps s) e with
+                | Some u => ((if u_dead u then 1 else 0), u_conn_closes u) | None => (9, 9) end) (p_handles s).
+
+Definition pair_nat_eqb (a b : nat * nat) : bool := (fst a =? fst b) && (snd a =? snd b).
+Definition oo_eqb (a b : option (option nat)) : bool :=
+  match a, b with
+  | None, None => true | Some None, Some None => true | Some (Some x), Some (Some y) => x =? y | _, _ => false end.
+
+(* impl = model after one call *)
+Definition pstep_ok (s' : pstate) (r : eres) (gens keys : nat) (o : eobs) : bool :=
+  let burst := match eo_op o with EBurst _ _ _ _ => true | _ => false end in
+  optnat_eqb (m_ret s' r) (eo_ret o)
+  && (burst || Bool.eqb (r_isnew r) (eo_isnew o))
+  && (r_err r =? eo_err o)
+  && (p_dials s' =? eo_dials o)
+  && list_eqb pair_nat_eqb (firstn (length (eo_eps o)) (m_eps s')) (eo_eps o)
+  && list_eqb oo_eqb (map (m_pool s') (seq 0 keys)) (eo_pool o)
+  && forallb (fun g => forallb (fun t =>
+        m_refs s' g t =? match find (fun x => (fst (fst x) =? g) && (snd (fst x) =? t)) (eo_tuples o) with
+                         | Some x => snd x | None => 0 end) (seq 0 8)) (seq 0 gens)
+  && list_eqb Nat.eqb (map (p_drainc s') (seq 0 gens)) (eo_drain o).
+
+(* model = spec (reference machine) after one call: same observables *)
+Definition mspec_ok (s' : pstate) (r : eres) (es' : espec) (er : eres) (gens keys : nat) : bool :=
+  optnat_eqb (m_ret s' r) (r_ret er) && Bool.eqb (r_isnew r) (r_isnew er) && (r_err r =? r_err er)
+  && (p_dials s' =? es_dials es')
+  && list_eqb2 (fun x y => (exp_closes x =? snd y) && Bool.eqb (er_retired x) (fst y =? 1)) (es_eps es') (m_eps s')
+  && list_eqb2 cur_eqb (map (es_cur es') (seq 0 keys)) (map (m_pool s') (seq 0 keys))
+  && forallb (fun g => forallb (fun t => m_refs s' g t =? exp_refs es' g t) (seq 0 8)) (seq 0 gens)
+  && list_eqb Nat.eqb (map (p_drainc s') (seq 0 gens)) (map (exp_drain es') (seq 0 gens)).
+
+(* codes: 1 impl<>model, 2 impl<>spec, 3 model<>spec *)
+Fixpoint pcheck (s : pstate) (es : espec) (gens keys : nat) (steps : list eobs) (n : nat) : list (nat * nat) :=
+  match steps with
+  | [] => []
+  | o :: r =>
+      let '(s', res) := pstep s (pop_of (eo_op o)) in
+      let '(es', eres) := estep es (eo_op o) in
+      (if pstep_ok s' res gens keys o then [] else [(n, 1)])
+      ++ (if estep_ok es' eres gens keys o then [] else [(n, 2)])
+      ++ (if mspec_ok s' res es' eres gens keys then [] else [(n, 3)])
+      ++ pcheck s' es' gens keys r (S n)
+  end.
+
+Definition first_of_each (l : list (nat * nat)) : list (nat * nat) :=
+  let pick := fun c => match find (fun x => snd x =? c) l with Some x => [x] | None => [] end in
+  pick 1 ++ pick 2 ++ pick 3.
+
+Definition pcheck_case (c : ecase) : list (nat * nat) :=
+  first_of_each (pcheck p0 es0 (ec_gens c) (ec_keys c) (ec_steps c) 0).
